@@ -87,6 +87,68 @@ def check_grid(g, m1, chain=True):
     return None, '', None
 
 
+ALIASES = {'zinc': ['zinc', 'ZINC', 'Zinc'], 'json': ['json', 'JSON', 'Json']}
+
+
+def check_doc(gs, m1, seed):
+    """gs: the list parse(.., single=False) returned for a document of 0, 2 or 3 grids. The whole list is dumped and
+    re-parsed in both formats, the format being named by the constant or by one of the accepted spellings."""
+    import hszinc
+    r = random.Random(seed ^ 0xA11A5)
+    for m2 in ('zinc', 'json'):
+        spell = r.choice(ALIASES[m2] + [MODES[m2]])
+        before = [snapshot(g) for g in gs]
+        try:
+            s = hszinc.dump(gs, mode=spell)
+        except Exception as e:
+            return 'dump-raises:' + type(e).__name__, 'document of %d grids, %s -> dump mode=%r: %s' % (len(gs), m1, spell, str(e)[:200]), m2
+        if [snapshot(g) for g in gs] != before:
+            return 'dump-mutated-grid', 'dump(list, %r) changed a grid' % (spell,), m2
+        try:
+            ref = hszinc.dump(gs, mode=MODES[m2])
+        except Exception as e:
+            return 'second-dump-raises:' + type(e).__name__, str(e)[:200], m2
+        if ref != s:
+            return 'dump-not-deterministic', 'dump of %d grids with mode=%r differs from mode=%r: %r vs %r' % (
+                len(gs), spell, MODES[m2], s[:120], ref[:120]), m2
+        try:
+            back = hszinc.parse(s, mode=r.choice(ALIASES[m2] + [MODES[m2]]), single=False)
+        except Exception as e:
+            return 'reparse-raises:' + type(e).__name__, 'parse(dump(%d grids, %r)): %s | text %r' % (len(gs), spell, str(e)[:200], s[:200]), m2
+        if len(back) != len(gs):
+            return 'transcode:shape-changed', '%d grids dumped with mode=%r, %d read back | text %r' % (len(gs), spell, len(back), s[:200]), m2
+        for a, b in zip(gs, back):
+            d = D.grid_diff(hs.from_grid(a), hs.from_grid(b), True)
+            if d:
+                return 'transcode:' + d[1], '%s->%s (document) %s: %s' % (m1, m2, d[0], d[2]), m2
+        try:
+            s3 = hszinc.dump(back, mode=r.choice(ALIASES[m2] + [MODES[m2]]))
+            s4 = hszinc.dump(hszinc.parse(s3, mode=MODES[m2], single=False), mode=MODES[m2])
+        except Exception as e:
+            return 'renormalise-raises:' + type(e).__name__, str(e)[:200], m2
+        if s4 != s3:
+            return 'normalise-not-idempotent', 'N(N(x)) != N(x) in %s for a document of %d grids' % (m2, len(gs)), m2
+    return None, '', None
+
+
+def judge_doc(ns, m1, seed):
+    import hszinc
+    if m1 == 'zinc':
+        w, text = c03.build_doc(ns, seed, None, False, 'str')
+    else:
+        from vf import refjson
+        w = refjson.Writer(random.Random(seed))
+        text = json.dumps(w.doc(ns, array=True))
+    try:
+        gs = hszinc.parse(text, mode=MODES[m1], single=False)
+    except Exception:
+        return 'skip', 'reader rejected', {'text': text}
+    if len(gs) != len(ns) or any(D.grid_diff(n, hs.from_grid(g), m1 == 'json') for n, g in zip(ns, gs)):
+        return 'skip', 'reader mis-decoded (C03/C05)', {'text': text}
+    sym, detail, m2 = check_doc(gs, m1, seed)
+    return sym, detail, {'text': text, 'm2': m2}
+
+
 def judge(ns, m1, seed, script=None):
     """Build the document for ns in format m1 with the independent writer, parse it, check the parsed grid."""
     import hszinc
@@ -197,6 +259,23 @@ def run_shard(spec, ctx):
     gen = D.Gen(r)
     gen.zoneless = 0.3
     for i in range(spec['n']):
+        if i % 4 == 3:
+            # a whole document of 0, 2 or 3 grids, as parse(.., single=False) returns it
+            ns = [gen.grid(r.choice(['2.0', '3.0']), small=True) for _ in range(r.choice([0, 2, 2, 3]))]
+            seed = r.getrandbits(48)
+            if all(c03.expressible(x) for x in ns):
+                sym, detail, art = judge_doc(ns, m1, seed)
+                ctx.case(art['text'], m1, 'doc')
+                if sym == 'skip':
+                    ctx.count('skipped: ' + detail)
+                else:
+                    ctx.count('multi-grid documents checked (%s)' % m1)
+                    ctx.cls('document', m1, 'grids=%d' % len(ns))
+                    if sym:
+                        ctx.violation({'part': '%s>%s' % (m1, art.get('m2')), 'format': 'transcode', 'position': 'document', 'kind': 'grids',
+                                       'symptom': sym, 'features': ['grids=%d' % len(ns)]},
+                                      '%s: %s | source document %r' % (sym, detail, art['text'][:300]),
+                                      {'doc': [D.enc(x) for x in ns], 'm1': m1, 'seed': seed})
         # parser-made version objects: also spellings with other than two numeric groups (2 == 2.0 == 2.0.0)
         n = gen.grid(r.choice(['2.0', '3.0', '3.0', '3', '2', '3.0.0', '2.0.0', '3.00']), maxcols=4, maxrows=5)
         if not c03.expressible(n):
@@ -220,6 +299,13 @@ def run_shard(spec, ctx):
 
 
 def replay(case, ctx):
+    if 'doc' in case:
+        ns = [D.dec(x) for x in case['doc']]
+        sym, detail, art = judge_doc(ns, case['m1'], case['seed'])
+        if sym and sym != 'skip':
+            ctx.violation({'part': '%s>%s' % (case['m1'], art.get('m2')), 'format': 'transcode', 'position': 'document', 'kind': 'grids',
+                           'symptom': sym, 'features': ['grids=%d' % len(ns)]}, '%s: %s' % (sym, detail), case)
+        return
     n = D.dec(case['n'])
     sym, detail, art = judge([n], case['m1'], case['seed'], {} if case.get('canonical') else None)
     if sym and sym != 'skip':
@@ -230,6 +316,8 @@ def finish(ctx, merged):
     c = merged['counters']
     if c.get('parsed grids checked (zinc)', 0) < 200 or c.get('parsed grids checked (json)', 0) < 300:
         ctx.inconclusive.append('too few parsed grids checked')
+    if c.get('multi-grid documents checked (zinc)', 0) < 20 or c.get('multi-grid documents checked (json)', 0) < 20:
+        ctx.inconclusive.append('too few multi-grid documents checked')
     # cross-process determinism
     by = {}
     for k in list(c):
